@@ -56,6 +56,7 @@ type Engine struct {
 	liftDone     map[string]bool // lifted lemmas whose obligations were generated in this run
 	orphans      map[string]string // contracts whose function no longer exists
 	localsSnap   map[string][]string // declared names per function as of the tree the contracts were written for (locals.json)
+	appliedContracts map[string]bool // contracts applied at some call site in this run
 	curProp      string            // property being checked ("": all tagged clauses active)
 }
 
@@ -85,7 +86,7 @@ func NewEngineOverlay(repo string, overlay map[string][]byte) (*Engine, error) {
 		globalSeen: map[string]bool{}, strs: map[string]Term{}, fls: map[string]Term{}, fns: map[string]Term{}, fnObjs: map[string]*types.Func{},
 		addrs: map[types.Object]Term{}, heapElemSort: map[string]string{}, usedSpecs: map[string]bool{}, notes: map[string][]string{},
 		trusted: map[string]bool{}, assumed: map[string]bool{}, globalInit: map[*types.Var]*globalInfo{}, globalConst: map[*types.Var]Term{},
-		specConsts: map[string]Term{}, realSpecMemo: map[string]bool{}, usedAxioms: map[string]string{}, recMemo: map[string]bool{}, extVars: map[string]int{}, usedLemmas: map[string]bool{}, liftDone: map[string]bool{}, orphans: map[string]string{}}
+		specConsts: map[string]Term{}, realSpecMemo: map[string]bool{}, usedAxioms: map[string]string{}, recMemo: map[string]bool{}, extVars: map[string]int{}, usedLemmas: map[string]bool{}, liftDone: map[string]bool{}, orphans: map[string]string{}, appliedContracts: map[string]bool{}}
 	e.fset = token.NewFileSet()
 	cfg := &packages.Config{
 		Mode: packages.NeedName | packages.NeedFiles | packages.NeedSyntax | packages.NeedTypes | packages.NeedTypesInfo | packages.NeedImports | packages.NeedDeps | packages.NeedModule,
